@@ -101,11 +101,11 @@ macro_rules! return_if_some {
     };
 }
 
-pub const N_SINGLE: usize = 10;
+pub const N_SINGLE: usize = 11;
 /// single-trait families the plugin module can also make (C05)
 pub const N_PLUGIN_SINGLE: usize = 7;
 /// containers available per single-trait family
-pub const SINGLE_NCONT: [usize; N_SINGLE] = [2, 4, 2, 2, 1, 2, 1, 1, 1, 1];
+pub const SINGLE_NCONT: [usize; N_SINGLE] = [2, 4, 2, 2, 1, 2, 1, 1, 1, 1, 4];
 
 fn wrapc(o: Option<Box<dyn DynObj>>, cx: &Cx, cont: usize) -> Option<Created> {
     o.map(|obj| Created { obj, ctxsel: cx.ctxsel, borrowed: cont == 1 || cont == 2 })
@@ -133,6 +133,7 @@ pub fn create_single(family: usize, cont: usize, cx: &Cx) -> Option<Created> {
             7 => tw!(KDebug),
             8 => tw!(KDisplay),
             9 => tw!(KAsRef),
+            10 => tw!(KIntResMixed),
             _ => return None,
         };
         return Some(Created { obj, ctxsel: cx.ctxsel, borrowed });
@@ -161,6 +162,7 @@ pub fn create_single(family: usize, cont: usize, cx: &Cx) -> Option<Created> {
         7 => er!(Debug, KDebug, [0]),
         8 => er!(Display, KDisplay, [0]),
         9 => er!(AsRef, KAsRef, [0]),
+        10 => er!(IntResMixed, KIntResMixed, [0, 1, 2, 3]),
         _ => None,
     }
 }
